@@ -65,6 +65,7 @@ def qualnames(tree, modname):
 
 
 def _copy(n):
+    ast.fix_missing_locations(n) if hasattr(n, "lineno") else [setattr(n, a_, 1 if "lineno" in a_ else 0) for a_ in ("lineno", "col_offset", "end_lineno", "end_col_offset")] and ast.fix_missing_locations(n)
     if isinstance(n, ast.stmt):
         return ast.parse(ast.unparse(n)).body[0]
     return ast.parse(ast.unparse(n), mode="eval").body
@@ -86,8 +87,10 @@ def _stored_names(nodes):
 
 
 def _params(fn):
+    """(positional parameter names, keyword-only names incl. the *args name, which is bound to a tuple display of the
+    surplus positional actuals)"""
     a = fn.args
-    return [x.arg for x in a.posonlyargs + a.args], [x.arg for x in a.kwonlyargs]
+    return [x.arg for x in a.posonlyargs + a.args], [x.arg for x in a.kwonlyargs] + ([a.vararg.arg] if a.vararg else [])
 
 
 def _func_locals(fn):
@@ -158,6 +161,18 @@ class _Rename(ast.NodeTransformer):
             return ast.copy_location(ast.Name(id=self.names[n.id], ctx=n.ctx), n)
         return n
 
+    def visit_Call(self, n):
+        self.generic_visit(n)
+        # f(a, *(x, y)) is f(a, x, y)
+        args = []
+        for a in n.args:
+            if isinstance(a, ast.Starred) and isinstance(a.value, (ast.Tuple, ast.List)) and not any(isinstance(e, ast.Starred) for e in a.value.elts):
+                args.extend(a.value.elts)
+            else:
+                args.append(a)
+        n.args = args
+        return n
+
     def visit_arg(self, n):
         # lambda parameters that shadow: handled by refusing such helpers (see _straight_line)
         return n
@@ -172,7 +187,7 @@ def _body_of(fn):
 
 def _straight_line(fn):
     """(statements, return expr | None) if the helper is a straight line of plain statements, else None"""
-    if isinstance(fn, ast.AsyncFunctionDef) or fn.decorator_list or fn.args.vararg or fn.args.kwarg:
+    if isinstance(fn, ast.AsyncFunctionDef) or fn.decorator_list or fn.args.kwarg:
         return None
     body = _body_of(fn)
     if not body:
@@ -195,6 +210,88 @@ def _straight_line(fn):
     return body, ret
 
 
+class _NotStructured(Exception):
+    pass
+
+
+_RES = "__result__"
+_SIMPLE = (ast.Assign, ast.AugAssign, ast.Expr, ast.Pass, ast.Raise, ast.Assert, ast.Delete, ast.Break, ast.Continue)
+
+
+def _has_return(node):
+    return any(isinstance(x, ast.Return) for x in ast.walk(node))
+
+
+def _falls(stmts):
+    """can the statement list complete normally (reach its end without `return` / `raise`)?  syntactic, conservative"""
+    if not stmts:
+        return True
+    last = stmts[-1]
+    if isinstance(last, (ast.Return, ast.Raise)):
+        return False
+    if isinstance(last, ast.If):
+        return _falls(last.body) or _falls(last.orelse)
+    return True
+
+
+def _conv(stmts, cont):
+    """`stmts` followed by `cont` (what runs when `stmts` completes without returning), with every `return v` replaced by
+    `__result__ = v`; what follows a returning `if` is moved into the one arm that can fall through.  Nothing is
+    duplicated: an `if` with returns in it whose two arms can both fall through into a non-empty continuation, or a
+    `return` inside a loop / with / try, raises _NotStructured."""
+    out = []
+    for i, st in enumerate(stmts):
+        if isinstance(st, ast.Return):
+            out.append(ast.Assign(targets=[ast.Name(id=_RES, ctx=ast.Store())], value=st.value if st.value is not None else ast.Constant(None)))
+            return out
+        if isinstance(st, ast.If) and _has_return(st):
+            k = _conv(stmts[i + 1:], cont)
+            if k and _falls(st.body) and _falls(st.orelse):
+                raise _NotStructured()
+            out.append(ast.If(test=st.test, body=_conv(st.body, k if _falls(st.body) else []) or [ast.Pass()], orelse=_conv(st.orelse, k if _falls(st.orelse) else [])))
+            return out
+        if _has_return(st):
+            raise _NotStructured()
+        out.append(st)
+    return out + cont
+
+
+def _structured(fn):
+    """(statements, returned expression | None) for a helper whose control flow is structured: plain statements, loops,
+    `with`, `try`, and `if`s whose `return`s are in tail position (guard style).  None for anything else."""
+    sl = _straight_line(fn)
+    if sl is not None:
+        return sl
+    if isinstance(fn, ast.AsyncFunctionDef) or fn.decorator_list or fn.args.kwarg:
+        return None
+    body = _body_of(fn)
+    if not body:
+        return None
+    for x in ast.walk(ast.Module(body=body, type_ignores=[])):
+        if isinstance(x, (ast.Yield, ast.YieldFrom, ast.Await, ast.Lambda, ast.NamedExpr, ast.FunctionDef, ast.AsyncFunctionDef, ast.ClassDef, ast.Global, ast.Nonlocal,
+                          ast.Import, ast.ImportFrom, ast.Match, ast.AsyncFor, ast.AsyncWith, ast.TryStar)):
+            return None
+        if isinstance(x, ast.stmt) and not isinstance(x, _SIMPLE + (ast.Return, ast.If, ast.For, ast.While, ast.With, ast.Try)):
+            return None
+        if isinstance(x, ast.ExceptHandler) and x.name:
+            return None
+        if isinstance(x, ast.Call) and isinstance(x.func, ast.Name) and x.func.id in ("locals", "vars", "globals", "super", "eval", "exec"):
+            return None
+        if isinstance(x, ast.Name) and x.id in (fn.name, _RES):
+            return None
+    try:
+        # work on a copy: the definition itself stays as written
+        body = [_copy(st) for st in body]
+        stmts = _conv(body, [])
+    except _NotStructured:
+        return None
+    if not any(isinstance(x, ast.Name) and x.id == _RES for st in stmts for x in ast.walk(st)):
+        return stmts, None
+    if _falls(body):
+        stmts = [ast.Assign(targets=[ast.Name(id=_RES, ctx=ast.Store())], value=ast.Constant(None))] + stmts
+    return stmts, ast.Name(id=_RES, ctx=ast.Load())
+
+
 class _Site:
     counter = 0
 
@@ -208,13 +305,17 @@ def _bind(fn, call, is_method, caller_locals):
         if not pos or pos[0] != "self":
             return None
         pos = pos[1:]
-    if len(call.args) > len(pos):
-        return None
     m = {}
+    if len(call.args) > len(pos):
+        if not fn.args.vararg:
+            return None
+        m[fn.args.vararg.arg] = ast.Tuple(elts=list(call.args[len(pos):]), ctx=ast.Load())
+    elif fn.args.vararg:
+        m[fn.args.vararg.arg] = ast.Tuple(elts=[], ctx=ast.Load())
     for p, a in zip(pos, call.args):
         m[p] = a
     for k in call.keywords:
-        if k.arg in m or k.arg not in pos + kwo:
+        if k.arg in m or k.arg not in pos + kwo or (fn.args.vararg and k.arg == fn.args.vararg.arg):
             return None
         m[k.arg] = k.value
     a = fn.args
@@ -241,7 +342,7 @@ def _bind(fn, call, is_method, caller_locals):
 
 def _expand(fn, call, is_method, caller_locals, want_value, tag=None):
     """-> (statements, value expr | None) replacing the call, or None"""
-    sl = _straight_line(fn)
+    sl = _structured(fn)
     if sl is None:
         return None
     body, ret = sl
@@ -279,11 +380,92 @@ def _expand(fn, call, is_method, caller_locals, want_value, tag=None):
             pre.append(ast.Assign(targets=[ast.Name(id=t, ctx=ast.Store())], value=_copy(a)))
             names[p] = t
     for s in stored - params:
-        names[s] = "__%s_%s" % (tag, s)
+        names[s] = "__%s_%s" % (tag, s.strip("_") if s == _RES else s)
     rn = _Rename(names, subst)
-    out = pre + [rn.visit(_copy(st)) for st in body]
+    out = pre + _prune([rn.visit(_copy(st)) for st in body])
     val = rn.visit(_copy(ret)) if ret is not None else ast.Constant(None)
     return out, val
+
+
+_MODULE_DEFS = set()      # names bound, in the module being normalised, by exactly one top-level def / class and nothing else
+
+
+def _decided(test):
+    """True / False for a test that the substitution of the actuals has made constant (`None is None`, `<a module-level
+    function> is None`, `not <that>`), else None"""
+    if isinstance(test, ast.UnaryOp) and isinstance(test.op, ast.Not):
+        v = _decided(test.operand)
+        return None if v is None else (not v)
+    if isinstance(test, ast.Compare) and len(test.ops) == 1 and isinstance(test.ops[0], (ast.Is, ast.IsNot)):
+        a, b = test.left, test.comparators[0]
+
+        def kind(e):
+            if isinstance(e, ast.Constant) and e.value is None:
+                return "none"
+            if isinstance(e, ast.Constant) and isinstance(e.value, (bool, int, str)):
+                return "notnone"
+            if isinstance(e, ast.Name) and e.id in _MODULE_DEFS:
+                return "notnone"
+            return None
+        ka, kb = kind(a), kind(b)
+        if "none" in (ka, kb) and ka is not None and kb is not None:
+            same = ka == kb == "none"
+            return same if isinstance(test.ops[0], ast.Is) else not same
+    return None
+
+
+def _prune(stmts):
+    """drop the arms of `if`s whose test the substitution has decided"""
+    out = []
+    for st in stmts:
+        if isinstance(st, ast.If):
+            v = _decided(st.test)
+            if v is not None:
+                out.extend(_prune(st.body if v else st.orelse))
+                continue
+        for fld in ("body", "orelse", "finalbody"):
+            blk = getattr(st, fld, None)
+            if isinstance(blk, list) and blk and isinstance(blk[0], ast.stmt):
+                setattr(st, fld, _prune(blk) or ([ast.Pass()] if fld == "body" else []))
+        out.append(st)
+    return out
+
+
+def _land_result(stmts, val, targets, in_try):
+    """The statements that make the caller's `targets = helper(...)` out of the inlined body and its returned expression.
+    Where the helper returns one of its own locals (or a tuple display of them) into plain names of the caller that the
+    inlined block does not mention, the local simply *is* the caller's name from the start (no copy at the end) -- not
+    inside a `try`, where a failure half way would leave the caller's name changed."""
+    def names_in(nodes):
+        return {x.id for n in nodes for x in ast.walk(n) if isinstance(x, ast.Name)}
+    if len(targets) != 1:
+        return stmts + [ast.Assign(targets=targets, value=val)]
+    tg = targets[0]
+    pairs = None
+    if isinstance(tg, ast.Name):
+        pairs = [(tg, val)]
+    elif isinstance(tg, ast.Tuple) and isinstance(val, ast.Tuple) and len(tg.elts) == len(val.elts) and all(isinstance(t, ast.Name) for t in tg.elts) \
+            and len({t.id for t in tg.elts}) == len(tg.elts):
+        pairs = list(zip(tg.elts, val.elts))
+    if pairs is None:
+        return stmts + [ast.Assign(targets=targets, value=val)]
+    mentioned = names_in(stmts) | names_in([val])
+    ren = {}
+    if not in_try:
+        for t, v in pairs:
+            if isinstance(v, ast.Name) and v.id.startswith("__") and t.id not in mentioned and v.id not in ren \
+                    and sum(1 for _, v2 in pairs if isinstance(v2, ast.Name) and v2.id == v.id) == 1:
+                ren[v.id] = t.id
+    if ren:
+        rn = _Rename(ren, {})
+        stmts = [rn.visit(s) for s in stmts]
+        pairs = [(t, rn.visit(v)) for t, v in pairs]
+    rest = [(t, v) for t, v in pairs if not (isinstance(v, ast.Name) and v.id == t.id)]
+    # single assignments in order are the tuple assignment when no remaining target is read by a later remaining value
+    ok_seq = all(t.id not in names_in([v2 for _, v2 in rest[i + 1:]]) for i, (t, _) in enumerate(rest))
+    if ok_seq:
+        return stmts + [ast.Assign(targets=[ast.Name(id=t.id, ctx=ast.Store())], value=v) for t, v in rest]
+    return stmts + [ast.Assign(targets=[ast.Tuple(elts=[ast.Name(id=t.id, ctx=ast.Store()) for t, _ in rest], ctx=ast.Store())], value=ast.Tuple(elts=[v for _, v in rest], ctx=ast.Load()))]
 
 
 def _single_expr(fn):
@@ -341,8 +523,11 @@ def _expr_inline(fn, call, is_method, caller_locals):
     return _Rename({}, subst).visit(_copy(e))
 
 
-def inline_new_helpers(tree, modname):
-    """Rewrite `tree` in place; returns the list of (caller qualname, helper qualname) pairs inlined."""
+def inline_new_helpers(tree, modname, other_sources=""):
+    """Rewrite `tree` in place; returns the list of (caller qualname, helper qualname) pairs inlined.  A new private
+    helper that no longer has any reference left (in this module's tree or, by name, in `other_sources`) is dropped
+    from the tree: every use has been read through, and rules that scan all functions of a module would otherwise
+    judge the orphaned copy on its own (a function that opens one of its parameters for writing, say)."""
     known = known_functions()
     if not known:
         return []
@@ -350,6 +535,11 @@ def inline_new_helpers(tree, modname):
     new = {q: fn for q, fn in table.items() if q not in known}
     if not new:
         return []
+    _MODULE_DEFS.clear()
+    top_defs = [st.name for st in tree.body if isinstance(st, (ast.FunctionDef, ast.ClassDef))]
+    rebound = _stored_names([st for st in tree.body if not isinstance(st, (ast.FunctionDef, ast.ClassDef))]) | \
+        {nm for x in ast.walk(tree) if isinstance(x, ast.Global) for nm in x.names}
+    _MODULE_DEFS.update(n for n in top_defs if top_defs.count(n) == 1 and n not in rebound)
     done = []
     classes = {}
 
@@ -412,7 +602,7 @@ def inline_new_helpers(tree, modname):
                 if not any(x.startswith("__%s_" % t_) for x in own_locals):
                     return t_
 
-        def do_block(stmts):
+        def do_block(stmts, in_try=False):
             nonlocal changed_any
             out = []
             for st in stmts:
@@ -454,7 +644,7 @@ def inline_new_helpers(tree, modname):
                         if ex is not None:
                             stmts2, val = ex
                             if kind == "assign":
-                                stmts2 = stmts2 + [ast.Assign(targets=st.targets, value=val)]
+                                stmts2 = _land_result(stmts2, val, st.targets, in_try)
                             elif kind == "return":
                                 stmts2 = stmts2 + [ast.Return(value=val)]
                             elif not isinstance(val, ast.Constant):
@@ -474,7 +664,7 @@ def inline_new_helpers(tree, modname):
                 # a temporary first (an `if` evaluates its test exactly once, before anything else)
                 if isinstance(st, ast.If) and not getattr(st, "_elif", False):
                     tcall = st.test.operand if isinstance(st.test, ast.UnaryOp) and isinstance(st.test.op, ast.Not) else st.test
-                    if isinstance(tcall, ast.Call) and resolve(tcall, q, cls_q) is not None and _straight_line(resolve(tcall, q, cls_q)[0]) is not None:
+                    if isinstance(tcall, ast.Call) and resolve(tcall, q, cls_q) is not None and _structured(resolve(tcall, q, cls_q)[0]) is not None:
                         t_ = "__test_" + tag_for("." + (tcall.func.id if isinstance(tcall.func, ast.Name) else tcall.func.attr))
                         asg = ast.Assign(targets=[ast.Name(id=t_, ctx=ast.Store())], value=tcall)
                         nm_ = ast.Name(id=t_, ctx=ast.Load())
@@ -494,9 +684,9 @@ def inline_new_helpers(tree, modname):
                 for fld in ("body", "orelse", "finalbody"):
                     blk = getattr(st, fld, None)
                     if isinstance(blk, list) and blk and isinstance(blk[0], ast.stmt):
-                        setattr(st, fld, do_block(blk))
+                        setattr(st, fld, do_block(blk, in_try or isinstance(st, ast.Try)))
                 for h in getattr(st, "handlers", []) or []:
-                    h.body = do_block(h.body)
+                    h.body = do_block(h.body, True)
                 out.append(st)
             return out
 
@@ -541,5 +731,39 @@ def inline_new_helpers(tree, modname):
         return best
     for q, fn in sorted(table.items(), key=lambda kv: -kv[0].count(".")):
         process(fn, q, owner_class(q))
+    # drop orphaned private helpers
+    import re as _re
+    inlined_helpers = {h for _, h in done}
+    changed = True
+    while changed:
+        changed = False
+        for hq in sorted(inlined_helpers):
+            fn = new.get(hq)
+            if fn is None:
+                continue
+            nm = fn.name
+            is_closure = hq.rsplit(".", 1)[0] in table          # a local function: nothing outside its enclosing function can name it
+            if not is_closure and (not nm.startswith("_") or nm.startswith("__") or _re.search(r"\b%s\b" % _re.escape(nm), other_sources)):
+                continue
+            refs = 0
+            for x in ast.walk(tree):
+                if x is fn:
+                    continue
+                if (isinstance(x, ast.Name) and x.id == nm) or (isinstance(x, ast.Attribute) and x.attr == nm) or (isinstance(x, ast.Constant) and x.value == nm):
+                    refs += 1
+            # references from inside its own body do not keep it alive
+            refs -= sum(1 for x in ast.walk(fn) if (isinstance(x, ast.Name) and x.id == nm) or (isinstance(x, ast.Attribute) and x.attr == nm) or (isinstance(x, ast.Constant) and x.value == nm))
+            if refs > 0:
+                continue
+            for parent in ast.walk(tree):
+                for fld in ("body", "orelse", "finalbody"):
+                    blk = getattr(parent, fld, None)
+                    if isinstance(blk, list) and fn in blk:
+                        blk.remove(fn)
+                        if not blk:
+                            blk.append(ast.Pass(lineno=fn.lineno, col_offset=fn.col_offset, end_lineno=fn.lineno, end_col_offset=fn.col_offset))
+                        new.pop(hq, None)
+                        inlined_helpers.discard(hq)
+                        changed = True
     ast.fix_missing_locations(tree)
     return done
